@@ -318,3 +318,52 @@ Proof.
     + right. repeat split; auto; try tauto; destruct Hwhere as [[_ ?]|?]; congruence.
   - right. repeat split; auto; try tauto; destruct Hwhere as [[? _]|?]; congruence.
 Qed.
+
+(** a flushed writer has been given all its bytes *)
+Definition flinv (s : state) : Prop :=
+  Forall (fun t => t_status t = Flushed -> length (t_data t) = t_size t) (st_threads s).
+
+Lemma flinv_step c s e s' log : flinv s -> step c s e = Some (s', log) -> flinv s'.
+Proof.
+  unfold flinv. intros H Hs. destruct e as [size|k ch|k|k]; cbn [step] in Hs.
+  - destruct (has_space c (st_cur s) size); [|discriminate].
+    destruct (alloc c (st_cur s) (st_images s) size) as [[[? ?] ?] ?].
+    inversion Hs; subst; clear Hs. cbn. apply Forall_app. split; [exact H|].
+    constructor; [cbn; discriminate|constructor].
+  - destruct (nth_error (st_threads s) k) as [t|]; [|discriminate].
+    destruct (t_status t); try discriminate. destruct (_ <=? _); [|discriminate].
+    destruct (write c (st_images s) (t_w t) ch) as [[? ?] ?].
+    inversion Hs; subst; clear Hs. cbn. apply Forall_upd; [exact H|cbn; discriminate].
+  - destruct (nth_error (st_threads s) k) as [t|]; [|discriminate].
+    destruct (t_status t); try discriminate.
+    destruct (Nat.eqb_spec (length (t_data t)) (t_size t)) as [E|E]; [|discriminate].
+    destruct (flush c (st_images s) (t_w t)) as [? ?].
+    inversion Hs; subst; clear Hs. cbn. apply Forall_upd; [exact H|cbn; intros _; exact E].
+  - destruct (nth_error (st_threads s) k) as [t|]; [|discriminate].
+    destruct (t_status t); try discriminate.
+    inversion Hs; subst; clear Hs. cbn. apply Forall_upd; [exact H|cbn; discriminate].
+Qed.
+
+Lemma flinv_run c tr : forall s s', flinv s -> run c s tr = Some s' -> flinv s'.
+Proof.
+  induction tr as [|e tr IH]; intros s s' Hi Hr; cbn in Hr.
+  - inversion Hr; subst; auto.
+  - destruct (step c s e) as [[s1 l]|] eqn:Hs; [|discriminate].
+    apply (IH s1 s'); [exact (flinv_step _ _ _ _ _ Hi Hs)|exact Hr].
+Qed.
+
+Lemma completed_in_images_full : forall c dev b0 tr s id k t pos,
+  1 <= c_sector c -> b_shared b0 = None ->
+  run c (init_state dev b0) tr = Some s ->
+  nth_error (st_threads s) k = Some t -> t_status t = Flushed ->
+  id < length (st_images s) -> t_start t <= pos < t_start t + t_size t ->
+  pos / c_sector c = im_sec (nth id (st_images s) dimg) ->
+  (pos / c_sector c = t_start t / c_sector c /\ t_first0 t <> None \/
+   pos / c_sector c = (t_start t + t_size t) / c_sector c) ->
+  nth (pos mod c_sector c) (img_data (st_images s) id) 0%Z = nth (pos - t_start t) (t_data t) 0%Z.
+Proof.
+  intros c dev b0 tr s id k t pos HS Hb Hr Hk Hfl. eapply completed_in_images; eauto.
+  assert (H0 : flinv (init_state dev b0)) by constructor.
+  pose proof (flinv_run c tr _ _ H0 Hr) as Hf.
+  exact (Forall_nth_error _ _ _ _ Hf Hk Hfl).
+Qed.
